@@ -112,7 +112,23 @@ def gen_scenarios(rng, *, per_workload, every):
         if not its:
             raise MachineryError(f"C19 baseline run of workload {b['wl']} recorded no loop iteration: {ev[-2:]}")
         npoints[b["wl"]] = len(its)
-        pts = its if every else rng.sample(its, min(per_workload, len(its)))
+        if every:
+            pts = its
+        else:
+            # half of the sample at random instants, half within the few loop iterations that follow a step of the
+            # group / transaction protocol (JoinGroup / SyncGroup / commit / EndTxn replies ...): the narrow windows
+            pts = set(rng.sample(its, min(per_workload // 2, len(its))))
+            near = []
+            for pt in info.get("proto_times") or []:
+                k = next((i for i, x in enumerate(its) if x >= pt), None)
+                if k is not None:
+                    near += its[k:k + 4]
+            near = sorted(set(near) - pts)
+            pts |= set(rng.sample(near, min(per_workload - len(pts), len(near))))
+            if len(pts) < per_workload:
+                rest = sorted(set(its) - pts)
+                pts |= set(rng.sample(rest, min(per_workload - len(pts), len(rest))))
+            pts = sorted(pts)
         for t in pts:
             for cond in CONDS:
                 if cond[0] == "failover" and b["workload"] not in ("group", "assign", "txn"):
